@@ -188,3 +188,15 @@ def c16_rename_captures_an_undefined_name(events, violation):
   exist) and the rename gave some table that id."""
   return (violation.get("oracle") == "rename-changed-value"
           and " was ['E', 'NameError'], after " in violation.get("detail", ""))
+
+
+def c06_cycle_through_exception_swallowing_formula(events, violation):
+  """F-o: the two orders differ in which cells hold CircularRefError, and some formula of the
+  history swallows exceptions (IFERROR / ISERROR / ISERR / try-except)."""
+  if violation.get("oracle") != "order-state" or "CircularRefError" not in violation.get("detail", ""):
+    return False
+  for _ev, a in _formula_writes(events):
+    f = a[3].get("formula") or ""
+    if "IFERROR(" in f or "ISERROR(" in f or "ISERR(" in f or "except" in f:
+      return True
+  return False
